@@ -16,6 +16,9 @@ pub mod c34;
 pub mod c26;
 pub mod c28;
 pub mod c29;
+pub mod c25;
+pub mod c27;
+pub mod c36;
 
 pub fn dispatch(cfg: &Cfg) -> Option<Outcome> {
     Some(match cfg.prop.as_str() {
@@ -35,6 +38,9 @@ pub fn dispatch(cfg: &Cfg) -> Option<Outcome> {
         "C26" => c26::run(cfg),
         "C28" => c28::run(cfg),
         "C29" => c29::run(cfg),
+        "C25" => c25::run(cfg),
+        "C27" => c27::run(cfg),
+        "C36" => c36::run(cfg),
         _ => return None,
     })
 }
